@@ -1361,10 +1361,11 @@ class Exec(Engine):
             return self.unpack(v, n, st, node)
         if isinstance(v, VExcInfo):
             return v.items(n)
-        if isinstance(v, VRef) and isinstance(st.heap.get(v.loc), HInst) and st.heap[v.loc].cls in C.RECORDS \
-                and len(C.RECORDS[st.heap[v.loc].cls]) == n and st.heap[v.loc].cls in C.TUPLE_RECORDS:
+        if isinstance(v, VRef) and isinstance(st.heap.get(v.loc), HInst) and st.heap[v.loc].cls in C.TUPLE_RECORDS:
             o = st.heap[v.loc]
-            return [o.fields[f] for f in C.RECORDS[o.cls]]
+            names = C.TUPLE_RECORDS[o.cls] if isinstance(C.TUPLE_RECORDS, dict) and C.TUPLE_RECORDS[o.cls] else list(C.RECORDS[o.cls])
+            if len(names) == n:
+                return [o.fields[f] for f in names]
         raise Undecided('cannot unpack %r into %d targets' % (v, n), node)
 
     def store_subscript(self, owner, key, v, st, node):
